@@ -57,6 +57,23 @@ def _slice_len(I, st, a):
     return (0, MEM_BOUND, ('len', a.vid))
 
 
+def _len_multiple(a):
+    """(vid, k) when the slice length is known to be k times the value with identity vid"""
+    if a is not None and a.k == 'ref' and a.extra and a.extra[0] == 'slicelen' and len(a.extra) > 3:
+        return a.extra[3]
+    return None
+
+
+def _as_multiple(n):
+    """(vid, k) if integer AV n is k * value(vid)"""
+    if n.k != 'int': return None
+    if n.extra and n.extra[0] == 'mul':
+        _, av, bv, ac, bc = n.extra
+        if bc is not None and ac is None: return (av, bc)
+        if ac is not None and bc is None: return (bv, ac)
+    return (n.lin[0], 1) if (n.lin and n.lin[1] == 0) else (n.vid, 1)
+
+
 def _len_av(I, st, a):
     lo, hi, sym = _slice_len(I, st, a)
     return mk_int(lo, hi, USIZE, sym=sym)
@@ -135,6 +152,9 @@ class Models:
                 r = dict(m); r.setdefault('name', m.get('name', name.split('::')[-1])); break
         self._cache[name] = r
         return r
+
+    def slice_len(self, I, st, a):
+        return _slice_len(I, st, a)
 
     def add(self, pat, name=None, panics=None, value=None, nohavoc=False, diverges=False):
         self.table.append((re.compile(pat), {'name': name or pat, 'panics': panics, 'value': value, 'nohavoc': nohavoc, 'diverges': diverges}))
@@ -500,13 +520,20 @@ class Models:
         def split_pre(I, st, args, akeys, t):
             lo, hi, sym = _slice_len(I, st, args[0])
             if _idx_le_len(args[1], lo, hi, sym): return True, None
+            lm = _len_multiple(args[0]); mm = _as_multiple(args[1])
+            if lm and mm and lm[0] == mm[0] and mm[1] <= lm[1]: return True, None
             return False, 'split point %r not known to be <= len [%s,%s]' % (args[1], lo, hi)
 
         def split_val(I, st, args, akeys, t, dkey):
             lo, hi, sym = _slice_len(I, st, args[0]); mid = args[1]
             if mid.k == 'int':
-                st.m[(dkey[0], dkey[1] + (0,))] = AV('ref', tgt=None, extra=('slicelen', mid.lo, mid.hi))
-                st.m[(dkey[0], dkey[1] + (1,))] = AV('ref', tgt=None, extra=('slicelen', max(0, lo - mid.hi), max(0, hi - mid.lo)))
+                lm = _len_multiple(args[0]); mm = _as_multiple(mid)
+                st.m[(dkey[0], dkey[1] + (0,))] = AV('ref', tgt=None, extra=('slicelen', mid.lo, mid.hi, mm))
+                rest = ('slicelen', max(0, lo - mid.hi), max(0, hi - mid.lo))
+                if lm and mm and lm[0] == mm[0] and mm[1] <= lm[1]:
+                    k = lm[1] - mm[1]
+                    rest = ('slicelen', k * mid.lo // max(mm[1], 1), k * mid.hi // max(mm[1], 1), (lm[0], k))
+                st.m[(dkey[0], dkey[1] + (1,))] = AV('ref', tgt=None, extra=rest)
         A(r'^core::slice::<impl \[T\]>::split_at(_mut)?$', name='split_at', panics=split_pre, value=split_val, nohavoc=True)
 
         def copy_pre(I, st, args, akeys, t):
@@ -523,7 +550,7 @@ class Models:
         def chunks_val(I, st, args, akeys, t, dkey):
             lo, hi, sym = _slice_len(I, st, args[0]); n = args[1]
             if n.k == 'int' and n.lo > 0:
-                item = AV('ref', tgt=None, extra=('slicelen', n.lo, n.hi))
+                item = AV('ref', tgt=None, extra=('slicelen', n.lo, n.hi, _as_multiple(n)))
                 st.m[dkey] = _mk_iter(t['dest']['ty'], 'chunks', lo // n.hi, hi // n.lo, None, item)
                 st.m[dkey].extra = st.m[dkey].extra + ((n.lo, n.hi),)
         A(r'^core::slice::<impl \[T\]>::chunks_exact(_mut)?$', name='chunks_exact', panics=chunks_pre, value=chunks_val, nohavoc=True)
